@@ -8,7 +8,7 @@ from ..rules_flow import forwarding, param_reaches_returns
 from .. import rules_tab as rt
 from .common import add_fwd, add_ret, add_checks, calls_in, ret_tags
 from .common import check as ob
-from ..canon import Canon, localise, each, returned
+from ..canon import Canon, localise, each, returned, helper_inliner
 from ..guards import GuardEval, UNK, specialise, resolve
 
 EXPLANATION = (
@@ -130,13 +130,22 @@ def projections(ctx, rep, clause):
         if len(rets) != 1:
             raise AnalysisError(f'Fragment.{pname}: expected a single return expression')
         props[pname] = rets[0].value
+    cf = Canon(f.node, inliner=helper_inliner(program, FR))
     aliases = single_assignments(f)
+
+    def spell(e, env=None) -> str:
+        """expression with path-local bindings, function-wide single bindings and simple helpers resolved"""
+        e = copy.deepcopy(e)
+        if env:
+            for _ in range(4):
+                e = _Inline(env).visit(e)
+        return ' '.join(ast.unparse(cf.resolve(e)).split())
     expect = {}
     for pname in ('number', 'label'):
         e = _SelfSubst(bind, props).visit(copy.deepcopy(props[pname]))
-        expect[pname] = inline(e, aliases)
-    expect['mass'] = inline(bind['mass'], aliases)
-    expect['mz'] = inline(bind['mz'], aliases)
+        expect[pname] = spell(e)
+    expect['mass'] = spell(bind['mass'])
+    expect['mz'] = spell(bind['mz'])
     want = {
         'label': expect['label'],
         'mass': expect['mass'],
@@ -150,9 +159,7 @@ def projections(ctx, rep, clause):
         if not appended_all:
             continue  # reported by the exhaustiveness rule
         n += 1
-        env = dict(aliases)
-        env.update(local)
-        gots = sorted({inline(a, env) for a in appended_all})
+        gots = sorted({spell(a, local) for a in appended_all})
         got = gots[0] if len(gots) == 1 else ' | '.join(gots)
         ob(rep, 'PROJ', BUILD, f"return_type '{rtype}' appends the projection of the Fragment", got == want[rtype],
            f'{got[:90]}',
@@ -167,7 +174,10 @@ def loss_sequence(ctx, rep, clause):
     modification names contain letters the loss patterns would match)"""
     program = ctx.program
     f = build_func(program)
-    aliases = single_assignments(f)
+    cf = Canon(f.node, inliner=helper_inliner(program, FR))
+
+    def spell(e):
+        return ' '.join(ast.unparse(cf.resolve(e)).split())
     calls = [n for n in walk_own(f.node) if isinstance(n, ast.Call) and isinstance(n.func, ast.Name) and
              n.func.id == 'get_losses']
     if len(calls) != 1:
@@ -179,7 +189,7 @@ def loss_sequence(ctx, rep, clause):
             arg = kw.value
     if arg is None and c.args:
         arg = c.args[0]
-    got = inline(arg, aliases) if arg is not None else '?'
+    got = spell(arg) if arg is not None else '?'
     ob(rep, 'PROJ', BUILD, 'losses are matched against the residues of the fragment', 
        got == 'annotation.slice(span[0], span[1]).sequence', got,
        f'get_losses receives `{got}`: loss patterns are matched against something other than the bare residues of '
@@ -188,8 +198,8 @@ def loss_sequence(ctx, rep, clause):
     for n in walk_own(f.node):
         if isinstance(n, ast.Call) and isinstance(n.func, ast.Name) and n.func.id == 'Fragment':
             kws = {kw.arg: kw.value for kw in n.keywords}
-            seq = inline(kws['sequence'], aliases) if 'sequence' in kws else ''
-            un = inline(kws['unmod_sequence'], aliases) if 'unmod_sequence' in kws else ''
+            seq = spell(kws['sequence']) if 'sequence' in kws else ''
+            un = spell(kws['unmod_sequence']) if 'unmod_sequence' in kws else ''
             ok_frag = seq == 'annotation.slice(span[0], span[1]).serialize()' and \
                 un == 'annotation.slice(span[0], span[1]).sequence'
     ob(rep, 'PROJ', BUILD, 'Fragment.sequence / unmod_sequence are the serialized / bare slice of the span', ok_frag,
@@ -213,10 +223,15 @@ def loss_combinations(ctx, rep, clause):
         if isinstance(x, ast.For) and isinstance(size, ast.Name) and isinstance(x.target, ast.Name) and \
                 x.target.id == size.id:
             loop = x
-    rng = norm_stmt(loop.iter).replace(' ', '') if loop is not None else ''
+    # the sizes: whatever the size variable iterates over (a for statement or a comprehension generator)
+    rng = ''
+    if isinstance(size, ast.Name):
+        for kind, payload in c.bindings.get(size.id, []):
+            if kind == 'each':
+                rng = norm_stmt(c.resolve(payload[0])).replace(' ', '')
     ob(rep, 'EXH', f.fq, 'combination sizes range over 2..max_losses', rng == 'range(2,max_losses+1)', rng,
        f'sizes are taken from `{rng}`: some number of simultaneous losses between 2 and max_losses is never produced',
-       f.loc(loop) if loop is not None else f.loc(), clause)
+       f.loc(loop) if loop is not None else f.loc(combos[0]), clause)
     from ..guards import dominating_tests, preceding_exits
     anchor = loop if loop is not None else combos[0]
     tests = list(dominating_tests(f.node, anchor)) + [(t, False) for t in preceding_exits(f.node.body, anchor)]
@@ -233,11 +248,23 @@ def loss_combinations(ctx, rep, clause):
        f'{len(tests)} guard(s) decided for max_losses in 2..4 and 2..5 matching sites',
        f'with max_losses={bad[0] if bad else ""} and {bad[1] if bad else ""} matching sites the guard `{bad[2] if bad else ""}` '
        f'skips the enumeration: double losses that do exist are not returned', f.loc(anchor), clause)
-    ob(rep, 'EXH', f.fq, 'combinations are drawn from the per-site list (one entry per matching site)',
-       c.is_local(sites_txt) and sites_txt in {norm_stmt(getattr(x.func, 'value', x)) for x in walk_own(f.node)
-                                              if isinstance(x, ast.Call) and isinstance(x.func, ast.Attribute)
-                                              and x.func.attr == 'append'}, sites_txt,
-       f'combinations are drawn from `{sites_txt}`, which is not the list that receives one entry per matching site: '
+    # the per-site list: one entry per regex match -- filled by an append under a loop over re.findall(...), or built
+    # by a comprehension with a generator over re.findall(...)
+    per_site = False
+    if c.is_local(sites_txt):
+        for x in walk_own(f.node):
+            if isinstance(x, ast.For) and 'findall(' in norm_stmt(x.iter):
+                for y in ast.walk(x):
+                    if isinstance(y, ast.Call) and isinstance(y.func, ast.Attribute) and y.func.attr == 'append' and \
+                            norm_stmt(y.func.value) == sites_txt:
+                        per_site = True
+        for kind, payload in c.bindings.get(sites_txt, []):
+            if kind == 'assign' and isinstance(payload, ast.ListComp) and \
+                    any('findall(' in norm_stmt(g.iter) for g in payload.generators):
+                per_site = True
+    ob(rep, 'EXH', f.fq, 'combinations are drawn from the per-site list (one entry per matching site)', per_site,
+       'one entry per regex match',
+       f'combinations are drawn from a list that does not receive one entry per matching site: '
        f'two losses at two different sites would be merged or missed', f.loc(combos[0]), clause)
 
 
@@ -246,26 +273,35 @@ def return_type_path(f: FuncInfo, rtype: str):
     (branches whose test is decided are pruned, conditional expressions resolved), so `==` chains, `in (...)` tests
     and merged branches are all read the same way.  -> (appended expressions, locals assigned on that path, first
     statement for the report)"""
-    ge = GuardEval({'return_type': rtype})
-    stream = list(specialise(f.node.body, ge))
-    ge = GuardEval({'return_type': rtype})
-    counts: Dict[str, int] = {}
-    vals: Dict[str, ast.AST] = {}
-    appended, first = [], None
+    c = Canon(f.node)
+    marks: Dict[int, bool] = {}
+    ge = GuardEval({'return_type': rtype}, c.aliases())
+    stream = list(specialise(f.node.body, ge, marks))
+    ge = GuardEval({'return_type': rtype}, c.aliases())
+    multi = {n_ for n_ in c.order if c.is_local(n_) and c.single_value(n_) is None}
+    vals: Dict[str, Optional[ast.AST]] = {}
+    appended, first, snapshots = [], None, []
     for st in stream:
-        if isinstance(st, ast.Assign) and len(st.targets) == 1 and isinstance(st.targets[0], ast.Name):
-            counts[st.targets[0].id] = counts.get(st.targets[0].id, 0) + 1
-            vals[st.targets[0].id] = resolve(st.value, ge)
+        if isinstance(st, ast.Assign) and len(st.targets) == 1 and isinstance(st.targets[0], ast.Name) and \
+                st.targets[0].id in multi:
+            # a local bound more than once means what its last binding on this path gave it; a binding under an
+            # undecided test makes it unknown
+            vals[st.targets[0].id] = resolve(st.value, ge) if marks.get(id(st), False) else None
         for x in ast.walk(st):
+            hit = None
             if isinstance(x, ast.Call) and isinstance(x.func, ast.Attribute) and x.func.attr == 'append' and x.args and \
                     norm_stmt(x.func.value) == 'frags':
-                appended.append(resolve(x.args[0], ge))
-                first = first or st
+                hit = x.args[0]
             if isinstance(x, (ast.Yield,)) and x.value is not None:
-                appended.append(resolve(x.value, ge))
+                hit = x.value
+            if hit is not None:
+                env = {k: v for k, v in vals.items() if v is not None}
+                e = resolve(hit, ge)
+                for _ in range(4):
+                    e = _Inline(env).visit(copy.deepcopy(e))
+                appended.append(e)
                 first = first or st
-    local = {k: v for k, v in vals.items() if counts.get(k) == 1}
-    return appended, local, first
+    return appended, {}, first
 
 
 def return_type_branches(f: FuncInfo) -> Dict[str, List[ast.stmt]]:
